@@ -183,6 +183,13 @@ def cases(tier, seed):
             npt = int(rng.integers(1, 9))
             cfg["det"] = {"t": "sph", "r": [float(v) for v in rng.uniform(15, 40, npt)], "theta": [float(v) for v in rng.uniform(0.0, 1.0, npt)],
                           "phi": [float(v) for v in rng.uniform(0, 2 * math.pi, npt)]}
+        if cfg["det"]["t"] == "grid" and i % 11 in (5, 8, 10):
+            # grids whose stored axis order / number of planes differs from the usual single (z, x, y) plane
+            if i % 11 != 8 and not kind.startswith(("lens", "mielens", "aberrated")):
+                z0 = float(cfg["det"].get("z") or 0.0)
+                cfg["det"]["zs"] = [z0 + 0.35 * k * float(rng.uniform(0.5, 1.5)) for k in range(2 + i % 2)]
+            if i % 11 != 5:
+                cfg["det"]["order"] = [["z", "y", "x"], ["x", "y", "z"], ["y", "x", "z"], ["y", "z", "x"], ["x", "z", "y"]][int(rng.integers(0, 5))]
         sc = [0.0, 1.0, float(rng.uniform(0.1, 2.0)), float(rng.uniform(0.1, 2.0))][i % 4]
         cost = 6 if kind.startswith(("lens", "tmatrix", "multi")) else 1
         out.append({"id": "id-%d" % i, "kind": "identity", "cfg": cfg, "ckind": kind, "scaling": sc,
@@ -303,6 +310,22 @@ def _run_identity(case):
     pol = cfg["optics"]["illum_polarization"]
     f, h, I, ref, hv, iv, iref = _identity(det, s, th, args, sc, pol)
     resid = {"holo_identity": relmax(hv, ref), "intensity_identity": relmax(iv, iref)}
+    if cfg["det"]["t"] == "grid":
+        # independent per-pixel evaluation: the same positions as a point detector, compared by coordinate label
+        from holopy.scattering import calc_field
+        from holopy.core.metadata import detector_points
+        X, Y, Z = np.meshgrid(det.x.values, det.y.values, det.z.values, indexing="ij")
+        pts = detector_points(x=X.ravel(), y=Y.ravel(), z=Z.ravel())
+        rest = {k: v for k, v in cfg["optics"].items() if k not in args}
+        if rest:
+            from holopy.core.metadata import update_metadata
+            pts = update_metadata(pts, **rest)
+        fp = calc_field(pts, s, theory=th, **args)
+        worst = 0.0
+        for comp in ("x", "y", "z"):
+            g = f.sel(vector=comp).transpose("x", "y", "z").values.ravel()
+            worst = max(worst, float(np.abs(g - fp.sel(vector=comp).values).max()))
+        resid["grid_pixel_vs_point"] = fnum(worst / max(float(np.abs(fp.values).max()), 1e-300))
     h0 = calc_holo(det, s, theory=th, scaling=0, **args)
     resid["scaling0_minus_1"] = fnum(float(np.abs(h0.values - 1.0).max()))
     # keyword vs positional call forms agree bitwise
@@ -378,7 +401,7 @@ def _run_history(case):
 
 # ------------------------------------------------------------------ oracle
 
-TOL = {"holo_identity": 1e-12, "intensity_identity": 1e-12, "scaling0_minus_1": 8.9e-16}
+TOL = {"holo_identity": 1e-12, "intensity_identity": 1e-12, "scaling0_minus_1": 8.9e-16, "grid_pixel_vs_point": 1e-10}
 
 
 def judge(case, obs):
